@@ -638,6 +638,7 @@ pub fn gen_segs<'a>(src: &mut Src, root: &'a J, start: Vec<Node<'a>>, cfg: &GenC
     };
     let mut cur = start;
     let mut segs = vec![];
+    let mut descendants = 0;
     for _ in 0..n {
         let focus = if cur.is_empty() {
             None
@@ -650,7 +651,18 @@ pub fn gen_segs<'a>(src: &mut Src, root: &'a J, start: Vec<Node<'a>>, cfg: &GenC
                 Some(cur[src.below(cur.len())].clone())
             }
         };
-        let seg = gen_seg(src, root, focus.as_ref(), cfg, fdepth);
+        let mut seg = gen_seg(src, root, focus.as_ref(), cfg, fdepth);
+        // a long chain on a deep document gets at most two descendant segments: every further one multiplies
+        // the node list by the depth once more (a thorough run met a query with five of them on a document 200
+        // levels deep: the library needed 43 GB for what the RFC says the answer is - no verdict to be had)
+        if max > 6 {
+            if seg.desc && descendants >= 2 {
+                seg.desc = false;
+            }
+            if seg.desc {
+                descendants += 1;
+            }
+        }
         // follow the strict semantics to know where the query stands
         let q = Query {
             abs: false,
